@@ -100,7 +100,7 @@ structure DownPlan (n n' e : Nat) (out : List MigSlots) : Prop where
   filled : ∀ j, j < n' * 2 → recvBy downIndex out j + quota (n * 2) j = quota (n' * 2) j
   nothing_else : ∀ j, n' * 2 ≤ j → recvBy downIndex out j = 0
   shape : ∀ ms ∈ out, (∃ j, j < n' * 2 ∧ ms.mm.dstChunk = j / 2 ∧ ms.mm.dstPart = j % 2) ∧
-    ms.mm.srcPart < 2 ∧ n' ≤ ms.mm.srcChunk ∧ ms.mm.srcChunk < n ∧ ms.mm.epoch = e
+    ms.mm.srcPart < 2 ∧ n' ≤ ms.mm.srcChunk ∧ ms.mm.srcChunk < n ∧ ms.mm.epoch = e ∧ compact ms.ranges = ms.ranges
 
 /-- **the scale-down plan**: on a balanced cluster of `n` chunks, shrinking to `0 < n' < n` chunks
 does not panic, does not run out of fuel, drains every master of the chunks `≥ n'` and plans for
@@ -201,11 +201,11 @@ theorem removeSlotsToScaleDown_balanced {cl : Cluster} {n n' : Nat} (e : Nat)
       simpa using this
     · exact hpost.inv.out.later j (by omega)
   · intro ms hms
-    obtain ⟨j, hj, d1, d2, d3, d4⟩ := hpost.inv.out.shape ms hms
+    obtain ⟨j, hj, d1, d2, d3, d4, d5⟩ := hpost.inv.out.shape ms hms
     obtain ⟨new, hnew, hsrc⟩ := hpost.outs
     simp only [List.nil_append] at hnew
     have := hsrc ms (hnew ▸ hms)
     rw [hdl] at this
-    exact ⟨⟨j, hj, d1, d2⟩, d3, this.1, by omega, d4⟩
+    exact ⟨⟨j, hj, d1, d2⟩, d3, this.1, by omega, d4, d5⟩
 
 end Um.Broker
